@@ -268,6 +268,9 @@ func ParseRealtime(content []byte, opts *ParseRealtimeOptions) (*Realtime, error
 	if opts.Extension == nil {
 		opts.Extension = extensions.NoExtension()
 	}
+	if perFeedExtension, ok := opts.Extension.(extensions.PerFeedExtension); ok {
+		opts.Extension = perFeedExtension.NewFeed()
+	}
 	feedMessage := &gtfsrt.FeedMessage{}
 	if err := proto.Unmarshal(content, feedMessage); err != nil {
 		return nil, fmt.Errorf("failed to parse input as a GTFS Realtime message: %s", err)
